@@ -258,6 +258,14 @@ Proof. intros H. cbn [marker existsb]. rewrite H. reflexivity. Qed.
 Lemma RI_upd_status s w x a0 : RI s -> get s w = Some a0 -> a_st a0 <> Terminated -> RI (upd_actor s w (w_st x)).
 Proof. intros HR Hg Hn. eapply RI_ext; [exact HR|eapply ext_upd_status; eassumption]. Qed.
 
+Lemma keeps_start_instance s w self parent s' o p : start_instance roles s w self parent = (s', o, p) -> keeps u t s s'.
+Proof.
+  unfold start_instance. destruct (handle roles s w TRD 0%nat self) as [[s1 o1] p1] eqn:E1.
+  destruct (handle roles s1 w TL 0%nat parent) as [[s2 o2] p2] eqn:E2. intros H; inversion H; subst.
+  eapply keeps_trans; [eapply keeps_handle; exact E1|]. eapply keeps_trans; [eapply keeps_handle; exact E2|].
+  destruct p2; [apply keeps_refl|apply keeps_upd_actor; ks].
+Qed.
+
 Lemma SQ_try_restarted s w snd s' o p : RI s -> try_restarted roles s w snd = (s', o, p) -> SQ u t s s' o.
 Proof.
   intros HR. unfold try_restarted. destruct (get s w) as [a|] eqn:Ea; [|intros H; inversion H; subst; apply SQ_of_keeps, keeps_refl].
@@ -275,10 +283,14 @@ Proof.
     + (* the restarting object carries address t: its own OnTerminated is the marker *)
       assert (Hs1 : is_sys (a_tok a1) = false) by (rewrite I1; apply Z.eqb_eq in Heqb; rewrite Heqb; exact t_not_sys).
       destruct (handle_emits s1 w a1 TTS 0 snd s2 o2 false Ha1 Hs1 E2) as (o2' & ->).
-      destruct (provide s2 (a_tok a)) as [s3 inst]. inversion H; subst s' o p. apply SQ_marker.
+      destruct (provide s2 (a_tok a)) as [s3 inst].
+      match type of H with context [start_instance ?r ?x ?y ?z ?w0] => destruct (start_instance r x y z w0) as [[s9 o9] p9] eqn:E9 end.
+      inversion H; subst s' o p. apply SQ_marker.
       rewrite marker_app. apply orb_true_iff. right. apply marker_head. cbn [marker1]. rewrite I1. exact Heqb.
     + assert (Hne : a_tok a <> t) by (apply Z.eqb_neq; exact Heqb).
-      destruct (provide s2 (a_tok a)) as [s3 inst] eqn:Ep. inversion H; subst s' o p. apply SQ_of_keeps.
+      destruct (provide s2 (a_tok a)) as [s3 inst] eqn:Ep.
+      match type of H with context [start_instance ?r ?x ?y ?z ?w0] => destruct (start_instance r x y z w0) as [[s9 o9] p9] eqn:E9 end.
+      inversion H; subst s' o p. apply SQ_of_keeps.
       assert (X2 : ext s s2) by (eapply ext_trans; [eapply ext_handle; exact E1|eapply ext_handle; exact E2]).
       assert (A3 : actors s3 = actors s2) by (unfold provide in Ep; inversion Ep; subst; reflexivity).
       assert (R3 : registry s3 = registry s2) by (unfold provide in Ep; inversion Ep; subst; reflexivity).
@@ -296,8 +308,7 @@ Proof.
       { eapply keeps_trans; [exact K12|]. eapply keeps_trans; [apply keeps_same_actors; exact A3|]. unfold s4. apply keeps_upd_actor; ks. }
       assert (K5 : keeps u t s4 (deliver_sys s4 (a_tok a) (a_tok a) SResume)).
       { apply keeps_deliver_sys_other; [exact R4|right; exact Hne]. }
-      eapply keeps_trans; [exact K4|]. eapply keeps_trans; [exact K5|].
-      eapply keeps_trans; [|apply keeps_deliver_sys; discriminate]. apply keeps_deliver_sys. discriminate.
+      eapply keeps_trans; [exact K4|]. eapply keeps_trans; [exact K5|]. eapply keeps_start_instance; exact E9.
 Qed.
 
 Lemma SQ_apply_directive s w r d snd s' o p : RI s -> apply_directive roles s w r d snd = (s', o, p) -> SQ u t s s' o.
